@@ -1109,7 +1109,7 @@ class PseudoNetCDFFile(PseudoNetCDFSelfReg, object):
         if dims is None:
             maskdims = getattr(where, 'dimensions', dims)
         else:
-            maskdims = dims
+            maskdims = tuple(dims)
 
         coordkeys = self.getCoords()
         outf = self.copy(variables=False)
